@@ -210,6 +210,32 @@ func (p *PDU) RespReadBits() ([]bool, error) {
 	return ret, nil
 }
 
+// respReadBitsCount reads count coils or discrete inputs from a response
+// PDU and makes sure the response holds exactly that many. The response only
+// carries a byte count, so the number of bits comes from the request.
+func (p *PDU) respReadBitsCount(count int) ([]bool, error) {
+	switch p.FunctionCode {
+	case FuncCodeReadCoils, FuncCodeReadDiscreteInputs:
+		// ok
+	default:
+		return []bool{}, errors.New("invalid function code to read bits")
+	}
+
+	byteCount := (count + 7) / 8
+
+	if len(p.Data) != 1+byteCount || int(p.Data[0]) != byteCount {
+		return []bool{}, errors.New("response does not match number of bits requested")
+	}
+
+	ret := make([]bool, count)
+
+	for i := range ret {
+		ret[i] = ((p.Data[1+i/8] >> (i % 8)) & 0x1) == 0x1
+	}
+
+	return ret, nil
+}
+
 // RespReadRegs reads register values from a
 // response PDU.
 func (p *PDU) RespReadRegs() ([]uint16, error) {
